@@ -39,6 +39,9 @@ type FSSpec struct {
 	TargetMissing bool      `json:"targetMissing,omitempty"`
 	TargetIsFile  bool      `json:"targetIsFile,omitempty"`
 	ParentIsFile  bool      `json:"parentIsFile,omitempty"` // the target's parent is a regular file
+	// InodeLimit > 0: the target directory is a tmpfs of its own that can hold InodeLimit-1 entries (the pre-state counts):
+	// the creation that would exceed it fails with ENOSPC. A fault injector for the filesystem, enumerable per creation.
+	InodeLimit int `json:"inodeLimit,omitempty"`
 }
 
 type Faults struct {
